@@ -131,6 +131,13 @@ def run(tier):
         else:
             ok = not app and len(errs) >= 1
             rep.ob("C06.elem|%s|string" % dd, ok, "a string in %s is an error" % DIRECTIVE[dd] if ok else "a string operand is accepted by %s" % DIRECTIVE[dd])
+    # ---- 2a. a character constant written as an operand has its full code point as value (so that one beyond the element width fails)
+    import grammar as _grammar
+    import rules_C05
+    g_, gp_ = _grammar.load_checked(P)
+    for pr_ in gp_:
+        rep.unprovable("C06.operand|grammar-cross-check", pr_)
+    rules_C05.char_literal(P, g_, rep, "C06.operand|char-constant")
     # ---- 2b. the length the padding and the addresses are computed from is the number of bytes emitted
     fn = "directive::Operand::len"
     if fn in P.body:
